@@ -12,8 +12,9 @@ META = {
             'arbitrary waiters; 8 threads, 2 tasks, waiters 5 and 6 woken -> both tasks stranded at quiescence). Two further refutations found while modelling: '
             'C07_refuted_hidden (claimAndWakeOne clears bit T but wakes waiter W != T; the desynchronised mask makes later masked wakes under-count, even a full-group ring dispatch strands a task) '
             'and C07_refuted_placed (scheduleImplPlaced wakes BEFORE it pushes; the woken worker can re-park before the push). All three are replayed every run on a real ThreadPool. '
-            'C07_holds_except: from the clean fully parked pool (every worker in FUTEX_WAIT with its bit set), any number of threads/groups, all schedules and waiter choices, no quiescent '
-            'state has pending work after schedule() / scheduleBulkEnqueue(count) (central queue) -- see Properties_C07.v for what is proved in full generality and what is _partial.',
+            'C07_holds_except / C07_holds_except_ring (kernel-checked, any number of threads/groups, all schedules and waiter choices): from the clean fully parked pool (every worker in '
+            'FUTEX_WAIT with its bit set) no quiescent state has pending work after schedule(), scheduleBulkEnqueue(count) (central queue; claims or cascadeWakeSeed) and '
+            'scheduleBulkToRings(count) when the count covers every affected wake group completely (the complement of the first finding\'s domain, Gallina partial_count).',
     'note': 'Trusted: Coq kernel; futex semantics (compare-and-block; wake n = n arbitrary waiters); harness/vsched.h, harness/vsched_pool.h; SC interleaving; the worker loop and submission '
             'skeleton of thread_pool.cpp/.h are hand-modelled (one failed poll round = own ring, central queue iff hint, own steal ring, other steal ring iff preferRing; never other workers\' '
             'locality rings), tied end-to-end by deterministic witness/control replays; timeout-free semantics renders "promptly". No axioms.',
